@@ -45,7 +45,10 @@ man = dict(
                   kind_free_text='repository-specific static analyser on the Python ast: source index with class/method resolution, '
                                  'statement CFG with short-circuit test atoms and typed exception edges, dominance and must-pass-through, '
                                  'bounded path enumeration with consistent atom valuation, table extraction (spaghetti/automat), '
-                                 'constant/shape folding; thorough tier adds an in-memory mutant/benign-twin self-test of every rule')],
+                                 'constant/shape folding; the sources are first brought into a normal form in memory (private names canonicalised against a recorded '
+                                 'vocabulary, un-anchored helpers inlined, extracted variables written back, three idioms desugared) so that behaviour-preserving '
+                                 'clean-ups keep what the rules look at; thorough tier adds an in-memory self-test of every rule: hand-written mutants, '
+                                 'benign twins, and 114 behaviour-preserving patches written by independent sub-agents')],
     checks=checks,
     notes=NOTES,
     not_applicable=na,
